@@ -1054,7 +1054,7 @@ impl Gen {
     /// (B) random diagrams with up to 10 variables, some of them unused
     fn random_cases(&mut self, dd: &str, n: usize) {
         for ci in 0..n {
-            let nv = self.rng.range(1, 10) as u32;
+            let nv = self.rng.range(0, 10) as u32;
             let mut ops = Vec::new();
             let style = self.rng.below(5);
             if let Some(v) = self.var_names(nv, style) {
